@@ -17,6 +17,10 @@ class Unsupported(Exception):
     pass
 
 
+# fieldless enums of the crate whose discriminant is read by translated kernels (declaration order = discriminant)
+FIELDLESS_ENUMS = {"UpdateComponents"}
+
+
 CTYPE = {"f64": "double", "bool": "_Bool", "i8": "int8_t", "i16": "int16_t", "i32": "int32_t", "i64": "int64_t",
          "u8": "uint8_t", "u16": "uint16_t", "u32": "uint32_t", "u64": "uint64_t", "usize": "uint64_t", "isize": "int64_t"}
 
@@ -86,6 +90,16 @@ class Translator:
         if ty in ("number::Number", "value::number::Number"):
             self.structs["rs_number"] = "typedef struct { double f0; } rs_number;"
             return "rs_number"
+        if ty in ("Option<number::Number>", "std::option::Option<number::Number>", "Option<value::number::Number>",
+                  "std::option::Option<value::number::Number>"):
+            return "opt_number"
+        if ty in FIELDLESS_ENUMS or ty.split("::")[-1] in FIELDLESS_ENUMS:
+            return "uint8_t"
+        if ty == "isize":
+            return "int64_t"
+        m = re.fullmatch(r"&(?:mut )?(.+)", ty)
+        if m:
+            return self.ctype(m.group(1)) + " *"
         raise Unsupported("type `%s`" % ty)
 
     def resolve(self, name):
@@ -102,6 +116,49 @@ class Translator:
             return cands[0]
         raise Unsupported("cannot resolve callee `%s` (candidates: %s)" % (name, cands[:4]))
 
+    def resolve_impl_method(self, prefix, method, nargs, args_text):
+        """`<number::Number as Add>::add` -> the crate function `number::<impl at ..>::add` whose parameters are all Number"""
+        cands = []
+        for k, defs in self.fns.items():
+            if k.startswith(prefix + "<impl at") and k.endswith(">::" + method):
+                for (params, ret, body) in defs:
+                    ptys = re.findall(r"_\d+: ([^,]+)", params)
+                    if len(ptys) == nargs and all(t.strip() in ("number::Number", "value::number::Number") for t in ptys):
+                        cands.append(k)
+        cands = sorted(set(cands))
+        if len(cands) != 1:
+            raise Unsupported("cannot resolve impl method %s%s (candidates %s)" % (prefix, method, cands))
+        return cands[0]
+
+    def promoted(self, owner, idx):
+        """`const <path>::promoted[N]`: a constant reference; translated as a function returning a pointer to static storage"""
+        short = owner.split("::")[-1]
+        key = "promoted_%s_%d" % (re.sub(r"[^A-Za-z0-9]+", "_", short), idx)
+        if key in self.done:
+            return self.done[key]
+        m = re.search(r"^const %s::promoted\[%d\]: (.+?) = \{\n(.*?)^\}\n" % (re.escape(short), idx), self.text, re.S | re.M)
+        if not m:
+            raise Unsupported("promoted constant %s[%d] not found" % (owner, idx))
+        rty, body = m.group(1), m.group(2)
+        rct = self.ctype(rty)
+        self.done[key] = key
+        locals_ = {}
+        lines = []
+        for lm in re.finditer(r"^\s*let (?:mut )?_(\d+): (.+?);$", body, re.M):
+            ct = self.ctype(lm.group(2))
+            locals_[lm.group(1)] = ct
+            lines.append("  static %s _%s;" % (ct, lm.group(1)))
+        for st in [x.strip() for x in body.split("\n") if "=" in x and not x.strip().startswith(("let", "debug"))]:
+            sm = re.fullmatch(r"(_\d+) = (.+);", st)
+            if not sm:
+                raise Unsupported("promoted statement `%s`" % st)
+            lty = locals_.get(sm.group(1)[1:], "")
+            lines.append("  %s = %s;" % (sm.group(1), self.rvalue(sm.group(2), locals_, lty)))
+        lines.append("  return _0;")
+        src = "static %s %s(void) {\n%s\n}\n" % (rct, key, "\n".join(lines))
+        self.order.append((key, "static %s %s(void);" % (rct, key), src))
+        return key
+
     def operand(self, s, locals_):
         s = s.strip()
         m = re.fullmatch(r"(?:copy|move) \(_(\d+)\.(\d+): [^)]+\)", s)
@@ -110,6 +167,18 @@ class Translator:
         m = re.fullmatch(r"(?:copy|move) _(\d+)", s)
         if m:
             return "_" + m.group(1)
+        m = re.fullmatch(r"(?:copy|move) \(\(_(\d+) as Some\)\.0: [^)]+\)", s)
+        if m:
+            return "_%s.f0" % m.group(1)
+        m = re.fullmatch(r"(?:copy|move) \(\(\*_(\d+)\)\.(\d+): [^)]+\)", s)
+        if m:
+            return "(*_%s).f%s" % (m.group(1), m.group(2))
+        m = re.fullmatch(r"(?:copy|move) \(\*_(\d+)\)", s)
+        if m:
+            return "(*_%s)" % m.group(1)
+        m = re.fullmatch(r"const (\S+)::promoted\[(\d+)\]", s)
+        if m:
+            return self.promoted(m.group(1), int(m.group(2))) + "()"
         m = re.fullmatch(r"const (.+)", s)
         if m:
             return self.const(m.group(1))
@@ -180,6 +249,22 @@ class Translator:
         m = re.fullmatch(r"(?:std::option::)?Option::<i64>::Some\((.+)\)", rhs)
         if m:
             return "(opt_i64){1, %s}" % self.operand(m.group(1), locals_)
+        m = re.fullmatch(r"discriminant\(_(\d+)\)", rhs)
+        if m:
+            lt = locals_.get(m.group(1), "")
+            if lt.startswith("opt_"):
+                return "((int64_t)_%s.some)" % m.group(1)
+            if lt == "uint8_t":
+                return "((int64_t)_%s)" % m.group(1)
+            raise Unsupported("discriminant of `%s`" % lt)
+        m = re.fullmatch(r"&(?:mut )?_(\d+)", rhs)
+        if m:
+            return "&_" + m.group(1)
+        if re.fullmatch(r"(?:std::option::)?Option::<(?:value::)?number::Number>::None", rhs):
+            return "(opt_number){0, {0.0}}"
+        m = re.fullmatch(r"(?:std::option::)?Option::<(?:value::)?number::Number>::Some\((.+)\)", rhs)
+        if m:
+            return "(opt_number){1, %s}" % self.operand(m.group(1), locals_)
         m = re.fullmatch(r"(?:value::)?number::Number\((.+)\)", rhs)
         if m:
             return "(rs_number){%s}" % self.operand(m.group(1), locals_)
@@ -232,7 +317,7 @@ class Translator:
                     lines.append("  return _0;")
                     continue
                 if st in ("unreachable;",):
-                    lines.append("  __CPROVER_assume(0);")
+                    lines.append("  RS_ASSUME(0);")
                     continue
                 m = re.fullmatch(r"switchInt\((.+?)\) -> \[(.+)\];", st)
                 if m:
@@ -256,10 +341,26 @@ class Translator:
                     dst, callee, args, nb = m.groups()
                     dstc = self.place(dst)
                     cargs = [self.operand(a, locals_) for a in self.split_args(args)]
+                    mo = re.fullmatch(r"<(?:value::)?number::Number as (?:std::cmp::)?PartialOrd>::(gt|lt|ge|le)", callee)
+                    if mo:
+                        # derive(PartialOrd) on the single-f64 newtype: provided methods of core, modelled as the float comparison
+                        op = {"gt": ">", "lt": "<", "ge": ">=", "le": "<="}[mo.group(1)]
+                        lines.append("  %s = ((*%s).f0 %s (*%s).f0);" % (dstc, cargs[0], op, cargs[1]))
+                        lines.append("  goto bb%s;" % nb)
+                        continue
+                    mo = re.fullmatch(r"<(?:value::)?number::Number as (?:std::ops::)?(\w+)>::(\w+)", callee)
+                    if mo:
+                        callee = self.resolve_impl_method("number::", mo.group(2), len(cargs), args)
                     if callee in STD_CALLS:
                         fn = STD_CALLS[callee]
                     elif callee.startswith(("std::", "core::", "alloc::")):
                         raise Unsupported("std call `%s` in %s" % (callee, name))
+                    elif re.fullmatch(r"(?:value::)?number::Number::(\w+)", callee):
+                        meth = callee.split("::")[-1]
+                        c2 = [k for k in self.fns if k.startswith("number::<impl at") and k.endswith(">::" + meth)]
+                        if len(c2) != 1:
+                            raise Unsupported("cannot resolve %s (%s)" % (callee, c2))
+                        fn = self.translate(c2[0])
                     else:
                         fn = self.translate(callee)
                     lines.append("  %s = %s(%s);" % (dstc, fn, ", ".join(cargs)))
